@@ -71,8 +71,8 @@ def family(a):
     if isinstance(a, EnumT):
         return {"enum:" + a.name} | ({"str", "abcseq"} if a.mixin == "str" else {"int"} if a.mixin == "int" else set())
     if isinstance(a, Coll):
-        return {"seq": {"abcseq", "list", "tuple"}, "coll": {"abcseq", "list", "tuple", "set", "dict"}, "mutseq": {"list"}, "list": {"list"}, "blist": {"list"},
-                "vartuple": {"tuple"}, "set": {"set"}, "absset": {"set"}, "mutset": {"set"}, "frozenset": {"set"}}[a.c]
+        return {"seq": {"abcseq", "list", "tuple", "deque"}, "coll": {"abcseq", "list", "tuple", "set", "dict", "deque"}, "mutseq": {"list", "deque"}, "list": {"list"}, "blist": {"list"},
+                "vartuple": {"tuple"}, "set": {"set"}, "absset": {"set"}, "mutset": {"set"}, "frozenset": {"set"}, "deque": {"deque"}}[a.c]
     if isinstance(a, Tup):
         return {"tuple"}
     if isinstance(a, MapT):
